@@ -64,7 +64,7 @@ def install():
 
 class Result:
     __slots__ = ('kind', 't4', 'exc_type', 'exc_msg', 'stdout', 'warnings',
-                 'input_unchanged', 'body')
+                 'input_unchanged', 'body', 'deliberate')
 
     def __init__(self, **kw):
         for k in self.__slots__:
@@ -128,6 +128,15 @@ def run(deck_text, options=(), name='deck', encoding=None, keep=False):
                     res.kind = 'error'
                     res.exc_type = type(e).__name__
                     res.exc_msg = str(e)
+                    # raised by a `raise` statement of the converter itself (and not by the interpreter
+                    # underneath it, as in `KeyError: 77` out of a dictionary lookup)?
+                    try:
+                        import traceback
+                        last = traceback.extract_tb(e.__traceback__)[-1]
+                        res.deliberate = (os.path.realpath(last.filename).startswith(os.path.realpath(REPO))
+                                          and (last.line or '').strip().startswith('raise'))
+                    except Exception:  # noqa
+                        res.deliberate = False
             res.warnings = [str(w.message) for w in wrec]
     finally:
         sys.argv = saved_argv
